@@ -592,6 +592,7 @@ class C18:
         env.AUDIT.start()
         oc = drive.cli_execute(argv)
         events = env.AUDIT.stop()
+        details = list(env.AUDIT.details)
         after = env.snapshot(sb)
         d = env.snapdiff(before, after)
         counters["snap_" + kind] = 1
@@ -604,7 +605,13 @@ class C18:
                 viol.append(oracles.V("inspecting-command-raised", argv=shown, exc=oc.excname(), tb=(oc.tb or "")[-800:]))
             if d["added"] or d["removed"] or d["changed"]:
                 viol.append(oracles.V("inspecting-command-modified-sandbox", argv=shown, diff=d))
-            if wevents:
+            # an event that changes the filesystem by itself (create / truncate / remove / rename / mkdir / chmod ...);
+            # merely opening an existing file writable changes nothing and is left to the snapshot comparison
+            modifying = [(e, ps) for (e, ps), dt in zip(events, details)
+                         if [p for p in ps if p not in ("/dev/null", "/dev/tty")] and
+                         (e != "open-w" or dt.get("flags", 0) & (os.O_CREAT | os.O_TRUNC))]
+            if modifying:
+                wevents = modifying
                 viol.append(oracles.V("inspecting-command-write-event", argv=shown,
                                       events=[[e, [p.replace(scratch, "<S>") for p in ps]] for e, ps in wevents[:5]]))
         elif kind == "rename":
